@@ -73,6 +73,15 @@ func genActs(rng *rand.Rand, n, nkeys int, sleeps []int) []Act {
 	return acts
 }
 
+func hasCompact(acts []Act) bool {
+	for _, a := range acts {
+		if a.Op == "compact" {
+			return true
+		}
+	}
+	return false
+}
+
 func genInit(rng *rand.Rand, nkeys int) []world.Spec {
 	var init []world.Spec
 	for k := 0; k < nkeys; k++ {
@@ -157,6 +166,12 @@ func genC03(g GenCtx) interface{} {
 		sc.WatchMode = "hang"
 	}
 	sc.Acts = genActs(rng, rng.Intn(41), nkeys, []int{0, 1, 10, p / 3, p, 2 * p})
+	if rng.Intn(5) == 0 && len(sc.Acts) > 0 {
+		// the server compacts its event log: a reconnect from an older version
+		// gets "410 Gone" until the next relist resets the watch
+		at := rng.Intn(len(sc.Acts))
+		sc.Acts = append(sc.Acts[:at], append([]Act{{Op: "compact"}}, sc.Acts[at:]...)...)
+	}
 	sc.LogYield = rng.Intn(4) == 0
 	sc.Sim = SimCfg{Strategy: randStrategy(rng, libGoroutines), NewTimers: rng.Intn(4) == 0, PermuteMaps: true, MaxSteps: 120000, EstSteps: 3000}
 	sc.Sim.Strategy.StallMaxMs = 2 * p
@@ -240,13 +255,13 @@ func runCtrl(sci interface{}) {
 	h.SeedMirrors() // the witness replays strictly from here on
 	detsim.HoldTime(false)
 	dead := sc.WatchMode != ""
-	healthy := len(sc.Faults) == 0 && sc.WatchMode == ""
+	healthy := len(sc.Faults) == 0 && sc.WatchMode == "" && !hasCompact(sc.Acts)
 
 	checkMid := func() {
 		detsim.Settle()
 		detsim.HoldTime(true)
 		defer detsim.HoldTime(false)
-		if healthy && !h.WatchOverflow {
+		if healthy && !h.WatchLossPossible() {
 			// (d) behaviourally: with a healthy watch nothing is lost between the
 			// list snapshot and the watch restart, so at quiescence the cache
 			// equals the server without waiting for a relist
@@ -280,6 +295,9 @@ func runCtrl(sci interface{}) {
 			srv.Apply(world.Spec{NS: a.NS, Name: a.Name, Labels: a.Labels})
 		case "delete":
 			srv.Delete(a.NS + "/" + a.Name)
+		case "compact":
+			srv.Compact()
+			detsim.Count("fault:server-compaction")
 		case "sleep":
 			time.Sleep(ms(a.Ms))
 		case "settle":
@@ -341,7 +359,7 @@ func runCtrl(sci interface{}) {
 		if detsim.IsClosed(h.Ctrl.Done()) {
 			detsim.Fail("controller-died", "controller shut down although no list failed: Error()=%v\n%s", h.Ctrl.Error(), srv.Summary())
 		}
-		if h.WatchOverflow {
+		if h.WatchLossPossible() {
 			// more events in flight than the buffers hold: outside C04's premise
 			// (the loss is repaired by the next relist, which C03 checks)
 			detsim.Count("probe:c04-run-outside-premise(overflow)")
